@@ -388,7 +388,19 @@ class Parser:
                 self.expect(";")
                 stmts.append(("let", pat, ty, init, els))
                 continue
-            e = self.parse_expr()
+            if self.peek()[1] in ("if", "match", "for", "while", "loop", "{") and self.peek()[0] in ("ident", "punct"):
+                # a block-like expression in statement position ends at its closing brace (`for .. { }` followed by `(..)` on the
+                # next line is not a call)
+                save = self.i
+                e = self.parse_primary(False)
+                if self.at(".") or self.at("?") or self.at("as"):
+                    self.i = save
+                    e = self.parse_expr()
+                elif not (self.at(";") or self.at("}")):
+                    stmts.append(("expr", e))
+                    continue
+            else:
+                e = self.parse_expr()
             if self.eat(";"):
                 stmts.append(("expr", e))
             elif self.at("}"):
